@@ -183,6 +183,9 @@ def run_builder(c, rsys=None, builder=None, include_params=None, subs=None):
     if c.get('subst_symbols') is not None:
         import sympy
         kw['substance_symbols'] = OrderedDict((k, sympy.Symbol(k)) for k in c['subst_symbols'])
+    if c.get('subst_symbols_plain') is not None:
+        import sympy
+        kw['substance_symbols'] = dict((k, sympy.Symbol(k)) for k in c['subst_symbols_plain'])     # plain dict: insertion order
     if c.get('param_symbols') is not None:
         import sympy
         mk = OrderedDict if c['param_symbols']['ordered'] else dict
@@ -936,7 +939,7 @@ class C04(Property):
                 srx['param'] = dict(srx['param'], conv=True)
         if c['builder'] == 'get':
             self._active_and_consts(rng, c)
-        elif rng.random() < 0.15:
+        elif rng.random() < 0.22:
             self._user_symbols(rng, c)
         return c
 
@@ -982,7 +985,16 @@ class C04(Property):
         need = list(dict.fromkeys([s['param']['uk'] for s in c['rxns'] if 'uk' in s['param'] and
                                    not (s['param']['kind'] == 'key' and s['param']['uk'] in pe)] + cs))
         r = rng.random()
-        if r < 0.5:
+        if r < 0.3:
+            ks = list(subst)                                                         # a PLAIN dict: any insertion order is fine
+            rng.shuffle(ks)
+            m = rng.random()
+            if m < 0.12 and ks:
+                del ks[rng.randrange(len(ks))]                                       # a substance without symbol: KeyError
+            elif m < 0.25:
+                ks.insert(rng.randrange(len(ks) + 1), 'no_substance')
+            c['subst_symbols_plain'] = ks
+        elif r < 0.55:
             ks = list(subst)
             if rng.random() < 0.4 and len(ks) > 1:
                 rng.shuffle(ks)                                                      # wrong order (or by chance the right one)
@@ -1115,7 +1127,8 @@ class C04(Property):
         rsys = rsys if rsys is not None else mk_rsys(c)
         if c['builder'] == 'get' and (c.get('active') or c.get('consts')):
             return self._oracle_general(c, rsys)
-        if c['builder'] == 'create' and (c.get('subst_symbols') is not None or c.get('param_symbols') is not None):
+        if c['builder'] == 'create' and (c.get('subst_symbols') is not None or c.get('param_symbols') is not None or
+                                         c.get('subst_symbols_plain') is not None):
             return self._oracle_usersyms(c, rsys)
         want_coeffs = expected_free(c)
         try:
@@ -1164,6 +1177,11 @@ class C04(Property):
                 set(s['param']['uk'] for s in c['rxns'] if s['param']['kind'] == 'key' and s['param']['uk'] not in pe)
         if set(odesys.param_names) != want_set or len(set(odesys.param_names)) != len(odesys.param_names):
             return 'param_names %s, expected the set %s' % (list(odesys.param_names), sorted(want_set))
+        if c['builder'] == 'create':
+            # deterministic here (no Python set involved): unique keys in reaction order, then the CSTR keys
+            order = [s['param']['uk'] for s in c['rxns'] if 'uk' in s['param'] and s['param']['uk'] in want_set] + cs
+            if list(odesys.param_names) != list(dict.fromkeys(order)):
+                return 'param_names %s are not in registration order %s' % (list(odesys.param_names), list(dict.fromkeys(order)))
         # --- the polynomial identity
         symof = dict(zip(odesys.param_names, odesys.params))
         symof.update(zip(odesys.names, odesys.dep))
@@ -1552,12 +1570,30 @@ class C04(Property):
             err = None
         except Exception as e:
             odesys, extra, err = None, None, e
-        ss, ps = c.get('subst_symbols'), c.get('param_symbols')
+        ss, ps, sp = c.get('subst_symbols'), c.get('param_symbols'), c.get('subst_symbols_plain')
+        if sp is not None and not set(names) <= set(sp):
+            return None if err is not None else '_create_odesys accepted a substance_symbols dict without a symbol for %s' % sorted(set(names) - set(sp))
+        if sp is not None and 'no_substance' in sp:
+            sp_extra = True                                # an extra symbol: harmless (a further entry of `symbols`)
+        if err is None and (ss is not None or sp is not None) and [str(d) for d in odesys.dep] != names:
+            return 'the dependent symbols %s are not the user\'s symbols of the substances %s, key by key' % (list(odesys.dep), names)
         if ss is not None and list(ss) != names:
             return None if isinstance(err, ValueError) else \
                 '_create_odesys did not refuse (ValueError) substance_symbols with keys %s for substances %s: %s' % (ss, names, exc_name(err) if err else 'accepted')
         if ps is None:
-            return self.oracle({k: v for k, v in c.items() if k != 'subst_symbols'}, rsys)
+            base = {k: v for k, v in c.items() if k not in ('subst_symbols', 'subst_symbols_plain')}
+            f = self.oracle(base, rsys)                    # everything the default build must satisfy (binding by NAME) …
+            if f is not None or err is not None or not clean(base):
+                return f
+            # … and the build that was actually made with the user's dict must be that kinetic model too
+            coeffs = expected_free(base)
+            symof = dict(zip(odesys.param_names, odesys.params))
+            symof.update(zip(odesys.names, odesys.dep))
+            pe0 = dict((k, kg.frac(v)) for k, v in c['param_exprs'])
+            val = lambda n: sympy.Rational(pe0[n].numerator, pe0[n].denominator) if (n in pe0 and n not in names) else symof[n]
+            return self._check_built(c, odesys, None, val,
+                                     [val(k) if isinstance(k, str) else sympy.Rational(k.numerator, k.denominator) for k in coeffs],
+                                     '_create_odesys (user substance_symbols)')
         if not ps['ordered']:
             return None if isinstance(err, ValueError) else \
                 '_create_odesys did not refuse (ValueError) a parameter_symbols that is no OrderedDict: %s' % (exc_name(err) if err else 'accepted')
@@ -1627,7 +1663,8 @@ class C04(Property):
         return '%s:%s:%s:nr%d%s' % (cfg, 'clean' if clean(c) else 'edge', kinds or '-', min(len(c['rxns']), 4),
                                     ':shared' if shared_inconsistent(c) else '') + (':alias' if c.get('alias') else '') + (
             ':active' if c.get('active') else '') + (':consts' if c.get('consts') else '') + (
-            ':usersyms' if c.get('subst_symbols') is not None or c.get('param_symbols') is not None else '') + (
+            ':usersyms' if c.get('subst_symbols') is not None or c.get('param_symbols') is not None or
+            c.get('subst_symbols_plain') is not None else '') + (
             ':conv' if any(s['param'].get('conv') for s in c['rxns']) else '') + (
             ':same-object' if any('share' in s for s in c['rxns']) else '') + (':copy' if any('from_copy' in s for s in c['rxns']) else '')
 
